@@ -1,4 +1,5 @@
 import SmtpV.Props.C04
+import SmtpV.Props.C04Echo
 #print axioms SmtpV.Props.C04.C04_own_verdict
 #print axioms SmtpV.Props.C04.C04_reply_syntax
 #print axioms SmtpV.Props.C04.C04_reply_syntax_multiline
@@ -7,3 +8,6 @@ import SmtpV.Props.C04
 #print axioms SmtpV.Props.C04.C04_lmtp_one_reply_per_recipient
 #print axioms SmtpV.Props.C04.C04_starttls_replies
 #print axioms SmtpV.Props.C04.C04_auth_replies
+#print axioms SmtpV.Props.C04.C04_echo_printable
+#print axioms SmtpV.Props.C04.C04_echo_faithful
+#print axioms SmtpV.Props.C04.C04_echo_sites
